@@ -65,6 +65,13 @@ def material(codes):
     return real, model
 
 
+def bulk(a, b, c):
+    """Now and then one call brings in 17..40 items at once."""
+    if (a + 2 * b + 3 * c) % 9:
+        return []
+    return [b + k * (c + 1) for k in range(16 + (a + c) % 25)]
+
+
 class Diverged(Exception):
     pass
 
@@ -210,7 +217,7 @@ def apply_step(soup, root, op, case, k, flags):
             return None
         n, owner, lst, i, p = t
         note_target(n, lst)
-        real, model = material([b, c][:1 + (b + c) % 2] + ([a] if (a + c) % 5 == 0 else []))
+        real, model = material([b, c][:1 + (b + c) % 2] + ([a] if (a + c) % 5 == 0 else []) + bulk(a, b, c))
         resolve(soup, p).replace_with(*real)
         lst[i:i + 1] = model
         return 'replace_with %r <- %d items' % (p, len(real))
@@ -227,7 +234,7 @@ def apply_step(soup, root, op, case, k, flags):
     if code in (3, 4):  # insert / append
         owner, p = conts[a % len(conts)]
         cn = resolve(soup, p)
-        real, model = material([b, c][:1 + c % 2])
+        real, model = material([b, c][:1 + c % 2] + bulk(a, b, c))
         mlist = owner.body
         if code == 4:
             cn.append(*real)
@@ -468,14 +475,14 @@ def shard_histories(ctx, shard):
     H.import_repo()
     from hypothesis import strategies as st
     res = H.Result()
-    prof = ['tinytwin', 'smalltwin', 'tinytwin', 'smalllists'][idx % 4]
+    prof = ['tinytwin', 'smalltwin', 'tinytwin', 'smalllists', 'wide'][idx % 5]
     op = st.tuples(st.integers(0, 13), st.integers(0, 40), st.integers(0, 40), st.integers(0, 40))
     strat = st.tuples(G.wfdoc(prof), st.lists(op, min_size=2, max_size=maxlen))
 
     def prop(c):
         nodes, ops = c
         src = G.render(nodes)
-        if len(src) > 400:
+        if len(src) > (800 if prof == 'wide' else 400):
             res.excluded['document-longer-than-400-characters(cost)'] += 1
             return
         case = {'src': src, 'ops': [list(o) for o in ops], 'profile': prof}
